@@ -112,8 +112,9 @@ def compile_run(workdir, name, files, stdin_text, timeout=120, extra_flags=()):
     if c.returncode != 0:
         return c.returncode, c.stderr, None, "", ""
     try:
-        r = subprocess.run([exe], input=stdin_text, stdout=subprocess.PIPE, stderr=subprocess.PIPE, text=True, timeout=timeout)
-        return 0, "", r.returncode, r.stdout, r.stderr
+        # the program under test may print bytes that are not UTF-8 (a mis-escaped literal): that is data
+        r = subprocess.run([exe], input=stdin_text.encode(), stdout=subprocess.PIPE, stderr=subprocess.PIPE, timeout=timeout)
+        return 0, "", r.returncode, r.stdout.decode("utf-8", "replace"), r.stderr.decode("utf-8", "replace")
     except subprocess.TimeoutExpired:
         return 0, "", -999, "", "timeout"
 
